@@ -236,12 +236,7 @@ func c06r2(c *Ctx) {
 		"Proxy.Labels":        "self-discovery labels hashed explicitly; locality labels captured by locality/failoverPriorityLabels",
 		"Proxy.XdsNode":       "locality fallback source, captured by the locality key field",
 	}
-	// candidates awaiting confirmation against the real code (DESIGN section 6): reported as information, not armed.
 	pending := map[string]string{}
-	for _, k := range []string{"EDS:Proxy.ipMode", "CDS:ClusterBuilder.fileCredentialSocketExist", "CDS:ClusterBuilder.credentialSocketExist",
-		"CDS:ClusterBuilder.proxyLabels", "CDS:ClusterBuilder.proxyIPAddresses", "CDS:ClusterBuilder.proxyID"} {
-		pending[k] = "triage in progress"
-	}
 	n := 0
 	var names []string
 	for f, nm := range isProxyAttr {
@@ -287,8 +282,9 @@ func c06r2(c *Ctx) {
 	ckey := p.CG().Reach([]*ssa.Function{p.Func(pkgCore, "", "buildClusterKey")}, nil)
 	cge, cke := effectsOf(cgen), effectsOf(ckey)
 	cdsExcept := map[string]string{
-		"req":   "request handle (Push snapshot; staleness handled by the cache token)",
-		"cache": "the cache itself",
+		"req":     "request handle (Push snapshot; staleness handled by the cache token)",
+		"cache":   "the cache itself",
+		"proxyID": "used only for log/metric text in the cached path (confirmed by findings/C06-S3: no byte difference)",
 	}
 	var cnames []string
 	for f := range cbField {
